@@ -398,7 +398,9 @@ def main(argv=None):
 
     results, errors, violations = [], [], []
     regress_n = 0
-    with ctx.Pool(min(args.jobs, max(1, len(tasks) + 1))) as pool:
+    # one fresh process per shard: Hypothesis harvests constants from the modules a process has
+    # imported, so with reused workers the cases of a shard would depend on what ran there before
+    with ctx.Pool(min(args.jobs, max(1, len(tasks) + 1)), maxtasksperchild=1) as pool:
         rr = pool.apply_async(replay_task, ({"prop": prop, "paths": regress},)) if regress else None
         it = pool.imap_unordered(dispatch, tasks)
         for _ in range(len(tasks)):
